@@ -188,6 +188,19 @@ func (c *SCSV) Scan(v any) error {
 	return nil
 }
 
+// PLevel is a Valuer through its POINTER only: a member of type PLevel is an ordinary
+// integer for the driver, however the struct holding it is passed (T, *T, []T, []*T).
+type PLevel int
+
+func (l *PLevel) Value() (driver.Value, error) { return fmt.Sprintf("level-%d", int(*l)), nil }
+
+// PValued has a member whose pointer type is a Valuer, next to ordinary ones.
+type PValued struct {
+	ID int    `db:"id"`
+	Lv PLevel `db:"lv"`
+	N  string `db:"n"`
+}
+
 // ScanKinds has Scanner members of non-struct kinds.
 type ScanKinds struct {
 	ID   int     `db:"id"`
@@ -464,6 +477,7 @@ var Entries = []Entry{
 	e(Levels{}, "slice", false),
 	e(Graded{}, "struct", false, "id", "lv", "blob", "plv"),
 	e(ScanKinds{}, "struct", false, "id", "lv", "tags", "plv"),
+	e(PValued{}, "struct", false, "id", "lv", "n"),
 }
 
 // Shadows are types with the same name as a zoo type but from another package.
